@@ -11,6 +11,8 @@ annotations describe, over the **whole frame stack**:
   * every suspended frame sits on a `Call` (the callee's argument replaced its 2 operands; exactly
     one value comes back and its counter is incremented) or on the active `Select` running a
     filter function (the verdict comes back, counter not incremented);
+  * where the annotation carries a nil guard (`Guard`), the top of the stack and the number of
+    locals are related as it says (`GuardSem`);
   * all values on the stack, in the locals and in the select sources are *well-formed*: a function
     value refers to an existing function and carries exactly its `captures` captured values.
 -/
@@ -100,29 +102,39 @@ def stackBaseOf (P : Prog) (A : Array Anns) (s0 : Nat) : List Frame → Nat
       | none => 0
     | _, _ => 0
 
-/-- Shape of the current frame `f` (frame index `k`, stack base `sb`) of a process whose stack has
-`sLen` cells, whose locals number `lLen`, with parking state `park` and select state `sel`. -/
-inductive TopShape (P : Prog) (A : Array Anns) (f : Frame) (k sb sLen lLen : Nat) (park : Park)
-    (sel : Option SelectState) : Prop
+/-- Meaning of a `Guard` for a frame with locals base `lb` in a process with `lLen` locals and
+operand stack `stk`. -/
+def GuardSem (lb lLen : Nat) : Guard → List Val → Prop
+  | .none, _ => True
+  | .top g, stk => ∀ v s, stk = v :: s → v.isNil = false → lb + g ≤ lLen
+  | .dup g, stk => ∃ v s, stk = v :: v :: s ∧ (v.isNil = false → lb + g ≤ lLen)
+  | .neg g, stk => ∃ n v s, stk = n :: v :: s ∧ n.isNil = !v.isNil ∧ (v.isNil = false → lb + g ≤ lLen)
+  | .nilTop, stk => ∃ v s, stk = v :: s ∧ v.isNil = true
+
+/-- Shape of the current frame `f` (frame index `k`, stack base `sb`) of a process whose stack is
+`stk`, whose locals number `lLen`, with parking state `park` and select state `sel`. -/
+inductive TopShape (P : Prog) (A : Array Anns) (f : Frame) (k sb : Nat) (stk : List Val) (lLen : Nat)
+    (park : Park) (sel : Option SelectState) : Prop
   /-- the frame is exactly exhausted: one value over the base -/
   | exhausted (fn : Function) (hfn : P.functions[f.functionIndex]? = some fn)
       (hpc : f.counter = fn.instructions.size)
-      (hs : sLen = sb + 1) (hl : f.localsBase ≤ lLen)
+      (hs : stk.length = sb + 1) (hl : f.localsBase ≤ lLen)
       (hpark : park = .none) (hsel : SelNotAt sel k)
   /-- about to execute the instruction at an annotated pc -/
   | normal (fn : Function) (a : Ann) (i : Instr) (hat : FrameAt P A f fn a i)
       (hl : f.localsBase + a.locals ≤ lLen)
-      (hs : sLen = sb + a.height)
+      (hs : stk.length = sb + a.height)
       (hpark : park = .none) (hsel : SelNotAt sel k)
+      (hg : GuardSem f.localsBase lLen a.guard stk)
   /-- parked in `Spawn` (both operands popped, the pid not yet pushed) -/
   | spawning (fn : Function) (a : Ann) (hat : FrameAt P A f fn a .spawn)
       (hl : f.localsBase + a.locals ≤ lLen)
-      (hs : sLen + 2 = sb + a.height)
+      (hs : stk.length + 2 = sb + a.height)
       (hpark : park = .spawning) (hsel : SelNotAt sel k)
   /-- parked in a builtin `Call` that requested an effect -/
   | effecting (fn : Function) (a : Ann) (hat : FrameAt P A f fn a .call)
       (hl : f.localsBase + a.locals ≤ lLen)
-      (hs : sLen + 2 = sb + a.height)
+      (hs : stk.length + 2 = sb + a.height)
       (hpark : park = .effecting) (hsel : SelNotAt sel k)
   /-- evaluating the `Select` at this pc: sources popped (`receiving = none`, possibly parked), or
   a filter function has just returned its verdict (`receiving` set, verdict on top) -/
@@ -130,9 +142,9 @@ inductive TopShape (P : Prog) (A : Array Anns) (f : Frame) (k sb sLen lLen : Nat
       (hl : f.localsBase + a.locals ≤ lLen)
       (st : SelectState) (hst : sel = some st) (hk : st.frame = k)
       (hpc : st.instruction = f.counter)
-      (hs : (st.receiving = none ∧ sLen + 1 = sb + a.height ∧
+      (hs : (st.receiving = none ∧ stk.length + 1 = sb + a.height ∧
               (park = .none ∨ park = .selecting)) ∨
-            (st.receiving.isSome = true ∧ sLen = sb + a.height ∧ park = .none))
+            (st.receiving.isSome = true ∧ stk.length = sb + a.height ∧ park = .none))
 
 /-- **The invariant** (`s0` = stack cells below the process's first argument). -/
 structure Inv (P : Prog) (A : Array Anns) (s0 : Nat) (p : Proc) : Prop where
@@ -146,7 +158,7 @@ structure Inv (P : Prog) (A : Array Anns) (s0 : Nat) (p : Proc) : Prop where
     | [] => p.park = .none ∧ (p.result = none → p.stack.length = s0 + 1)
     | f :: rest =>
       p.result = none ∧
-      ∃ sb, TopShape P A f rest.length sb p.stack.length p.locals.length p.park p.selectState ∧
+      ∃ sb, TopShape P A f rest.length sb p.stack p.locals.length p.park p.selectState ∧
         Below P A s0 p.selectState rest sb f.localsBase
 
 /-- Entry state: a single frame at counter 0 of an existing function with the right number of
